@@ -24,9 +24,13 @@ def _alarm(signum, frame):
 
 
 def subtree_nodes(n):
-    out, todo = [], [n]
+    """pre-order walk, safe on shared child lists and cycles (each object once)"""
+    out, todo, seen = [], [n], set()
     while todo:
         x = todo.pop()
+        if id(x) in seen:
+            continue
+        seen.add(id(x))
         out.append(x)
         todo.extend(reversed(x.children))
     return out
@@ -203,6 +207,11 @@ def choose_op(rng, b, idc, prev=None):
             if not b.all_live(n) or self_referential(n) or not expand_in_scope(n):
                 continue
             return ("expand", k)
+        if r < 0.90:
+            # an operation that must REFUSE: it has to leave trees and registry as they were
+            j = rng.randrange(len(held))
+            kind = rng.choice(["replace", "replace", "remove", "shift", "delete"])
+            return ("refuse", kind, k, j, rng.random() < 0.7)
         if r < 0.93:
             if n.name == "creator" or n.name == "contact":
                 return ("setid", k, "x%d" % rng.randint(0, 3))
@@ -260,6 +269,36 @@ def apply_op(b, op, jc, stats=None):
             co.add_child(Node("references", content=op[2]))
             holder.add_child(co)
         b.discover(top)
+    elif k == "refuse":
+        from metapype.model.node import Shift
+        par, other = held[op[2]], held[op[3]]
+        if any(c is other for c in par.children):
+            return None                      # it would be accepted: not this operation's subject
+        stub = None
+        if op[1] == "replace":
+            stub = Node("".join(list(other.name)))      # same element name: only the missing child link can refuse
+            b.discover(stub)
+        before = (list(Node.store.items()), [(id(x), [id(c) for c in x.children], id(x.parent)) for x in held])
+        try:
+            if op[1] == "replace":
+                par.replace_child(other, stub, delete_old=op[4])
+            elif op[1] == "remove":
+                par.remove_child(other)
+            elif op[1] == "shift":
+                par.shift(other, Shift.LEFT)
+            else:
+                Node.delete_node_instance("".join(list("no-such-id-%d" % op[3])), children=op[4])
+        except (ValueError, KeyError, AttributeError):
+            after = (list(Node.store.items()), [(id(x), [id(c) for c in x.children], id(x.parent)) for x in held])
+            if stats is not None:
+                stats("refused:" + op[1])
+            if after[0] != before[0]:
+                return "REFUSED-BUT-REGISTRY-CHANGED"
+            if after[1] != before[1]:
+                return "REFUSED-BUT-TREE-CHANGED"
+            b.rediscover()
+            return None
+        return "refusal expected (" + op[1] + " of a node that is not a child) but the call returned"
     elif k == "setid":
         held[op[1]].add_attribute("id", op[2])
     elif k == "setcontent":
@@ -311,6 +350,16 @@ def check_state(b):
     """The statement. Returns None or (key-suffix, description, details)."""
     from metapype.model.node import Node
     ids = {}
+    lists, listed = {}, {}
+    for x in b.held:
+        if id(x.children) in lists and lists[id(x.children)] is not x:
+            return ("shared-child-list", "two node objects hold the SAME child-list object (an edit of one tree shows up in the other)",
+                    {"nodes": [lists[id(x.children)].name, x.name], "ids": [lists[id(x.children)].id, x.id]})
+        lists[id(x.children)] = x
+        for c in x.children:
+            if id(c) in listed and listed[id(c)] is not x:
+                return ("two-listers", "a node is listed as a child by two different nodes", {"child": c.id})
+            listed[id(c)] = x
     for x in b.held:
         if x.id in ids and ids[x.id] is not x:
             return ("id-collision", "two node objects carry the same id", {"id": x.id})
@@ -355,7 +404,12 @@ def run_history(ctx, oplog_or_none, rng, length):
             # history (its partial effects are outside the statement). Only a hang or a non-atomic rejected
             # expand is reported.
             ctx.count("op_raised:" + op[0] + ":" + esc.split(":")[0])
-            if esc == "expand-not-atomic" or esc.startswith("TimeoutError"):
+            if esc.startswith("REFUSED-BUT"):
+                ctx.fail(f"C14:refused-{op[1]}:side-effect",
+                         f"a rejected {op[1]} call (the node is not a child of that parent) changed the "
+                         + ("registry" if "REGISTRY" in esc else "tree"),
+                         {"kind": "impl-vs-statement", "history": [list(o) for o in log], "escaped": esc})
+            elif esc == "expand-not-atomic" or esc.startswith("TimeoutError") or esc.startswith("refusal expected"):
                 ctx.fail(f"C14:{op[0]}:raises", f"{op[0]} did not return normally ({esc})",
                          {"kind": "impl-vs-statement", "history": [list(o) for o in log], "escaped": esc})
             else:
